@@ -28,7 +28,8 @@ POOL = [1_500_000_000, 1_500_000_000, 1_600_000_000,   # archive-like timestamps
         2_000_000_000]   # ... and one from a machine whose clock runs ahead (mtime later than any ctime here)
 OPS_FILE = ["write_same", "write_other", "utime_restore", "utime_pool", "replace_over", "replace_keep_times",
             "copy2_over", "touch_now"]
-OPS_DIR = ["member_write_same", "member_write_other", "member_nested_write", "member_add", "member_remove",
+OPS_DIR = ["member_write_same", "member_write_other", "member_nested_write", "member_hidden_write",
+           "member_hidden_nested_write", "member_add", "member_remove",
            "dir_utime_restore"]
 
 
@@ -59,6 +60,9 @@ class World:
         self.f.write_text(self.content(4))
         (self.d / "a.txt").write_text("aaaa")
         (self.d / "sub" / "b.txt").write_text("bbbb")
+        (self.d / ".params").write_text("pppp")                 # hidden members are part of a Directory's content too
+        (self.d / ".meta").mkdir()
+        (self.d / ".meta" / "info.json").write_text("iiii")
         self.sib = []
         for i, ts in enumerate(POOL):
             p = root / f"sib{i}.txt"
@@ -128,6 +132,10 @@ class World:
             member = True
         elif op == "member_nested_write":
             q = d / "sub" / "b.txt"
+            q.write_text(self.content(len(q.read_text()) + rng_pick % 2))
+            member = True
+        elif op in ("member_hidden_write", "member_hidden_nested_write"):
+            q = d / ".params" if op == "member_hidden_write" else d / ".meta" / "info.json"
             q.write_text(self.content(len(q.read_text()) + rng_pick % 2))
             member = True
         elif op == "member_add":
